@@ -2503,8 +2503,15 @@ func bitNot(n *node) {
 	}
 }
 
-func land(n *node) {
-	value0 := genValue(n.child[0])
+// land and lor are executed after the second operand of a logical operation,
+// which then gives the result: the first one, whose value the second one may
+// have changed, led to the node built by shortCircuitNode otherwise.
+
+func land(n *node) { logicalResult(n) }
+
+func lor(n *node) { logicalResult(n) }
+
+func logicalResult(n *node) {
 	value1 := genValue(n.child[1])
 	tnext := getExec(n.tnext)
 	dest := genValue(n)
@@ -2514,7 +2521,7 @@ func land(n *node) {
 	if n.fnext != nil {
 		fnext := getExec(n.fnext)
 		n.exec = func(f *frame) bltn {
-			if value0(f).Bool() && value1(f).Bool() {
+			if value1(f).Bool() {
 				dest(f).SetBool(true)
 				return tnext
 			}
@@ -2525,47 +2532,41 @@ func land(n *node) {
 	}
 	if isInterface {
 		n.exec = func(f *frame) bltn {
-			dest(f).Set(reflect.ValueOf(value0(f).Bool() && value1(f).Bool()).Convert(typ))
+			dest(f).Set(reflect.ValueOf(value1(f).Bool()).Convert(typ))
 			return tnext
 		}
 		return
 	}
 	n.exec = func(f *frame) bltn {
-		dest(f).SetBool(value0(f).Bool() && value1(f).Bool())
+		dest(f).SetBool(value1(f).Bool())
 		return tnext
 	}
 }
 
-func lor(n *node) {
-	value0 := genValue(n.child[0])
-	value1 := genValue(n.child[1])
-	tnext := getExec(n.tnext)
-	dest := genValue(n)
-	typ := n.typ.concrete().TypeOf()
-	isInterface := n.typ.TypeOf().Kind() == reflect.Interface
-
-	if n.fnext != nil {
-		fnext := getExec(n.fnext)
-		n.exec = func(f *frame) bltn {
-			if value0(f).Bool() || value1(f).Bool() {
-				dest(f).SetBool(true)
-				return tnext
-			}
-			dest(f).SetBool(false)
-			return fnext
-		}
-		return
+// shortCircuit sets the result of the logical operation n.anc from its first
+// operand: false for &&, true for ||.
+func shortCircuit(n *node) {
+	op := n.anc
+	res := op.action == aLor
+	dest := genValue(op)
+	typ := op.typ.concrete().TypeOf()
+	isInterface := op.typ.TypeOf().Kind() == reflect.Interface
+	next := getExec(op.tnext)
+	if !res && op.fnext != nil {
+		next = getExec(op.fnext)
 	}
-	if isInterface {
+
+	if isInterface && op.fnext == nil {
+		v := reflect.ValueOf(res).Convert(typ)
 		n.exec = func(f *frame) bltn {
-			dest(f).Set(reflect.ValueOf(value0(f).Bool() || value1(f).Bool()).Convert(typ))
-			return tnext
+			dest(f).Set(v)
+			return next
 		}
 		return
 	}
 	n.exec = func(f *frame) bltn {
-		dest(f).SetBool(value0(f).Bool() || value1(f).Bool())
-		return tnext
+		dest(f).SetBool(res)
+		return next
 	}
 }
 
